@@ -31,6 +31,7 @@ RULE = (
     "dictionary is unchanged.  Non-trivial = a mixed-kind signature with a boundary value (integral float / "
     "integral FLOAT Constant to INT, non-finite float), or a stretched set with >= 2 gates of different arity."
     " Parameter names are a0, a1, ... and, in a third of the cases, one of self / args / kwargs / name (ordinary Jaqal identifiers that are special to Python)."
+    " Value classes include numpy integers (int64, int32, uint8, an array element) and numpy floats (float32, float16, float64; fractional and integral): they fit INT / FLOAT like the Python numbers of the same value."
 )
 ASSUMPTIONS = [
     "a non-finite float offered to FLOAT/NONE is not judged (the property says nothing about it); offered to INT, QUBIT, REGISTER it must be rejected with JaqalError",
@@ -55,6 +56,10 @@ VCLASSES = [
     "str",
     "none",
     "object",
+    # numpy numbers are numbers: the generator writes them as literals and loop counts take them
+    "np-int",
+    "np-float32",
+    "np-float32-integral",
 ]
 
 
@@ -69,11 +74,11 @@ def fits(kind, vc):
     if kind == "REGISTER":
         return vc in ("register", "param-REGISTER")
     if kind == "INT":
-        return vc in ("int", "float-integral", "const-int", "const-float-integral", "param-INT")
+        return vc in ("int", "float-integral", "const-int", "const-float-integral", "param-INT", "np-int", "np-float32-integral")
     if kind == "FLOAT":
         if vc == "float-nonfinite":
             return None
-        return vc in ("int", "float-integral", "float", "const-int", "const-float-integral", "const-float", "param-INT", "param-FLOAT")
+        return vc in ("int", "float-integral", "float", "const-int", "const-float-integral", "const-float", "param-INT", "param-FLOAT", "np-int", "np-float32", "np-float32-integral")
     raise ValueError(kind)
 
 
@@ -108,6 +113,12 @@ def value(vc, variant=0):
     if vc.startswith("param-"):
         k = vc[6:]
         return Parameter("p" + k.lower(), None if k == "NONE" else getattr(ParamType, k))
+    if vc == "np-int":
+        return [np.int64(3), np.int32(-2), np.uint8(0), np.arange(5)[4]][variant % 4]
+    if vc == "np-float32":
+        return [np.float32(0.25), np.float64(-1.5), np.float16(0.5)][variant % 3]
+    if vc == "np-float32-integral":
+        return [np.float32(2.0), np.float64(-3.0)][variant % 2]
     if vc == "str":
         return "q"
     if vc == "none":
